@@ -128,6 +128,12 @@ func c17RouteFeatures() []routeFeature {
 		kv("schemes", []string{"Schemes: http, https"}, map[string]interface{}{"schemes": []interface{}{"http", "https"}}),
 		kv("deprecated", []string{"Deprecated: true"}, map[string]interface{}{"deprecated": true}),
 		kv("security", []string{"Security:", "api_key:", "oauth: read, write"}, map[string]interface{}{"security": []interface{}{map[string]interface{}{"api_key": []interface{}{}}, map[string]interface{}{"oauth": []interface{}{"read", "write"}}}}),
+		// requirement lists of every length up to 3 with 0-2 scopes per line, lines with scopes before and after
+		// lines with fewer scopes
+		kv("security: scopes then fewer scopes then none", []string{"Security:", "oauth: read, write", "partner: submit", "api_key:"}, map[string]interface{}{"security": []interface{}{map[string]interface{}{"oauth": []interface{}{"read", "write"}}, map[string]interface{}{"partner": []interface{}{"submit"}}, map[string]interface{}{"api_key": []interface{}{}}}}),
+		kv("security: one scope twice", []string{"Security:", "oauth: read", "partner: submit"}, map[string]interface{}{"security": []interface{}{map[string]interface{}{"oauth": []interface{}{"read"}}, map[string]interface{}{"partner": []interface{}{"submit"}}}}),
+		kv("security: two scopes twice", []string{"Security:", "partner: submit, review", "oauth: read, write"}, map[string]interface{}{"security": []interface{}{map[string]interface{}{"partner": []interface{}{"submit", "review"}}, map[string]interface{}{"oauth": []interface{}{"read", "write"}}}}),
+		kv("security: single line without scopes", []string{"Security:", "api_key:"}, map[string]interface{}{"security": []interface{}{map[string]interface{}{"api_key": []interface{}{}}}}),
 		kv("responses", []string{"Responses:", "default: genericError", "200: someResponse", "422: validationError"}, map[string]interface{}{
 			"responses|default|$ref": "#/responses/genericError", "responses|200|$ref": "#/responses/someResponse", "responses|422|$ref": "#/responses/validationError"}),
 		kv("responses-body", []string{"Responses:", "200: body:someModel", "201: description: created fine"}, map[string]interface{}{
@@ -600,7 +606,7 @@ func writePkg(root, pkg, src string) {
 func RunC17(tier, replay string) int {
 	quietLogs()
 	r := evid.New("C17", tier)
-	r.Rule = "A1 faithfulness: annotation programs written from the documented grammar - swagger:route (7 methods x 4 path shapes x 3 tag sets x 11 sections/features, <=1 (quick) / <=2 (thorough) dimensions deviating), swagger:parameters structs with one field out of 19 (each location, each validation tag, items.* to depth 2), swagger:response, swagger:operation with a YAML body, swagger:model / allOf / strfmt / ignore; each program carries the facts it wrote (method, path, id, tags, in, name, code, constraints) and the scanned document must contain them and pass validate.Spec. A2 robustness: 90 hostile comment lines (every truncation of every annotation keyword and section header, broken YAML/JSON, bad numbers, tabs, CR, non-ASCII spaces, 64 KB lines) at 15 comment positions of a carrier program (pairs of lines in the thorough tier); the real `swagger generate spec` must not crash or hang (whether a returned document validates is recorded only: hostile comments are outside the documented grammar). distinct = program or (hostile line, position); non-trivial = scanner returned a document and it was checked"
+	r.Rule = "A1 faithfulness: annotation programs written from the documented grammar - swagger:route (7 methods x 4 path shapes x 3 tag sets x 15 sections/features, <=1 (quick) / <=2 (thorough) dimensions deviating), swagger:parameters structs with one field out of 19 (each location, each validation tag, items.* to depth 2), swagger:response, swagger:operation with a YAML body, swagger:model / allOf / strfmt / ignore; each program carries the facts it wrote (method, path, id, tags, in, name, code, constraints) and the scanned document must contain them and pass validate.Spec. A2 robustness: 90 hostile comment lines (every truncation of every annotation keyword and section header, broken YAML/JSON, bad numbers, tabs, CR, non-ASCII spaces, 64 KB lines) at 15 comment positions of a carrier program (pairs of lines in the thorough tier); the real `swagger generate spec` must not crash or hang (whether a returned document validates is recorded only: hostile comments are outside the documented grammar). distinct = program or (hostile line, position); non-trivial = scanner returned a document and it was checked"
 	r.Assume = []string{"the real swagger binary is run as a subprocess: a crash is a non-zero exit with a Go panic / fatal error trace, a hang is >3 minutes (typical 2 s)", "expected facts come from the grammar term that printed the annotation"}
 	s := NewScratch("C17")
 	defer s.Close()
@@ -762,19 +768,32 @@ type SomeModel struct {
 	{
 		root := filepath.Join(s.Dir, "merge2")
 		must(os.MkdirAll(root, 0o755))
-		methods := []string{"get", "post", "put", "delete", "patch"}
+		methods := []string{"get", "post", "put", "delete", "patch", "head", "options"} // every method of a path item
 		item := J{}
 		var src strings.Builder
 		src.WriteString("package m0001\n")
 		var facts []fact
+		// one more parameters struct shared by the operations of every method
+		{
+			var ids []string
+			for _, m := range methods {
+				ids = append(ids, "given"+strings.ToUpper(m[:1])+m[1:])
+			}
+			src.WriteString("\n// Shared are parameters of every operation.\n//\n// swagger:parameters " + strings.Join(ids, " ") + "\ntype Shared struct {\n\t// the trace id\n\t//\n\t// in: header\n\t// min length: 3\n\tTrace string `json:\"X-Trace\"`\n}\n")
+			for _, m := range methods {
+				facts = append(facts,
+					fact{Path: []string{"paths", "/multi", m, "parameters", "name=X-Trace", "in"}, Want: "header", What: "shared parameters set attached to input operation " + m},
+					fact{Path: []string{"paths", "/multi", m, "parameters", "name=X-Trace", "minLength"}, Want: 3.0, What: "shared parameter constraint on input operation " + m})
+			}
+		}
 		for _, m := range methods {
 			id := "given" + strings.ToUpper(m[:1]) + m[1:]
 			item[m] = J{"operationId": id, "responses": J{"200": J{"description": "ok"}}}
 			src.WriteString("\n// P" + id + " are the parameters of " + id + ".\n//\n// swagger:parameters " + id + "\ntype P" + id + " struct {\n\t// the filter\n\t//\n\t// in: query\n\t// max length: 9\n\tF" + m + " string `json:\"f" + m + "\"`\n}\n")
 			facts = append(facts,
 				fact{Path: []string{"paths", "/multi", m, "operationId"}, Want: id, What: "input operation " + m + " kept"},
-				fact{Path: []string{"paths", "/multi", m, "parameters", "0", "name"}, Want: "f" + m, What: "parameters set attached to input operation " + m},
-				fact{Path: []string{"paths", "/multi", m, "parameters", "0", "maxLength"}, Want: 9.0, What: "parameter constraint on input operation " + m})
+				fact{Path: []string{"paths", "/multi", m, "parameters", "name=f" + m, "in"}, Want: "query", What: "parameters set attached to input operation " + m},
+				fact{Path: []string{"paths", "/multi", m, "parameters", "name=f" + m, "maxLength"}, Want: 9.0, What: "parameter constraint on input operation " + m})
 		}
 		input := J{"swagger": "2.0", "info": J{"title": "given", "version": "9"}, "paths": J{"/multi": item}}
 		writePkg(root, "m0001", src.String())
